@@ -2,11 +2,11 @@
 # tools/recheck_seed.sh <seed-name> <property> [more...]   re-run registered quick checks on a stored seeded change
 set -u
 name=$1; shift
-cd /verif
+cd /verif; export GOFLAGS=-mod=mod GOPROXY=off GOSUMDB=off GOTOOLCHAIN=local
 [ -z "$(git -C /repo status --short)" ] || { echo "/repo not clean"; exit 2; }
 git -C /repo apply /verif/seeded/$name/patch.diff || { echo "patch does not apply to /repo"; exit 2; }
 for p in "$@"; do
-  ./check $p quick > /verif/seeded/$name/check-$p.out 2>&1; rc=$?
+  bin/gosymex check -prop $p -tier quick -no-evidence > /verif/seeded/$name/check-$p.out 2>&1; rc=$?
   echo "$name $p: VIOLATION lines $(grep -c '^VIOLATION' /verif/seeded/$name/check-$p.out) exit=$rc  $(grep -m1 'violated:' /verif/seeded/$name/check-$p.out | cut -c1-160)"
 done
 git -C /repo checkout -- .
